@@ -29,7 +29,7 @@ const FORGERIES_MUT: &[&str] = &[
     "prefix-salt-valid-sig",
     "extended-salt-valid-sig",
 ];
-const FORGERIES_SIGNED: &[&str] = &["mixed-valid-invalid", "other-infohash", "short-entry", "empty-entry", "sig-bitflip", "key-swap", "double-length-entry"];
+const FORGERIES_SIGNED: &[&str] = &["mixed-valid-invalid", "other-infohash", "short-entry", "empty-entry", "sig-bitflip", "key-swap", "double-length-entry", "same-key-twice", "same-key-twice-reversed", "same-entry-twice"];
 
 fn signed_entry(k: &[u8; 32], t: u64, s: &[u8; 64]) -> Value {
     let mut b = k.to_vec();
@@ -98,6 +98,8 @@ fn run(ctx: &RunCtx) -> Report {
     let vlen = rng.usize(1, 200);
     let value: Vec<u8> = rng.bytes(vlen);
     let imm_target = krpc::immutable_target(&value);
+    // the target of the unsalted mutable items of `other_key` - also a legal get_immutable argument
+    let imm2_target = krpc::mutable_target(&other_key.verifying_key().to_bytes(), None);
     let info_hash: Id = rng.id();
     let peers_hash: Id = rng.id();
     let honest_seq = rng.range(1, 50) as i64;
@@ -162,7 +164,15 @@ fn run(ctx: &RunCtx) -> Report {
             let Some(target) = msg.target() else { return HookResult::Default };
             let opts = opts_for(p, from);
             let mut r: Vec<(&str, Value)> = vec![("id", Value::bytes(&p.id)), ("token", Value::bytes(&p.token)), ("nodes", Value::Bytes(vec![]))];
-            if q == "get" && target == imm_target {
+            if q == "get" && target == imm2_target {
+                // a perfectly valid unsalted mutable item of `other_key`: right for get_mutable(other key),
+                // never an answer to get_immutable of that target
+                let it = Item::signed(&other_key, None, 3, b"a valid mutable item, not an immutable value");
+                r.push(("v", Value::bytes(&it.v)));
+                r.push(("k", Value::bytes(&it.k)));
+                r.push(("sig", Value::bytes(&it.sig)));
+                r.push(("seq", Value::Int(3)));
+            } else if q == "get" && target == imm_target {
                 match f.1 {
                     "wrong-hash" => r.push(("v", Value::Bytes(hr.bytes(20)))),
                     "bit-flip" => {
@@ -284,6 +294,24 @@ fn run(ctx: &RunCtx) -> Report {
                         a.2[10] ^= 4;
                         vec![signed_entry(&a.0, a.1, &a.2)]
                     }
+                    // not forgeries at all, but replays: two genuine announcements of ONE key with
+                    // different timestamps in one response (older first / newer first), or one entry
+                    // twice. Whatever surfaces must be a (key, timestamp, signature) triple somebody signed.
+                    "same-key-twice" | "same-key-twice-reversed" => {
+                        let t_old = wall_now - 20_000_000;
+                        let t_new = wall_now + 5;
+                        let old = signed_entry(&k0.verifying_key().to_bytes(), t_old, &krpc::sign(k0, &krpc::signed_announce_signable(&info_hash, t_old)));
+                        let new = signed_entry(&k0.verifying_key().to_bytes(), t_new, &krpc::sign(k0, &krpc::signed_announce_signable(&info_hash, t_new)));
+                        if f.3 == "same-key-twice" {
+                            vec![old, new]
+                        } else {
+                            vec![new, old]
+                        }
+                    }
+                    "same-entry-twice" => {
+                        let a = honest_anns[0];
+                        vec![signed_entry(&a.0, a.1, &a.2), signed_entry(&a.0, a.1, &a.2)]
+                    }
                     _ => {
                         // key of one announcement with signature of another
                         let a = honest_anns[0];
@@ -320,14 +348,15 @@ fn run(ctx: &RunCtx) -> Report {
             2 => sim.get_mutable_most_recent(reader, pk, salt.clone()),
             3 => sim.get_signed_peers(reader, info_hash),
             4 => sim.get_mutable(reader, pk, salt.clone(), Some(honest_seq - 2)),
+            6 => sim.get_immutable(reader, imm2_target),
             // a different key: lookups of different kinds for one target share one query (see C01)
             _ => sim.get_peers(reader, peers_hash),
         };
         ops.push((what, op));
     };
-    let mut order: Vec<u64> = vec![0, 1, 2, 3, 4, 5];
+    let mut order: Vec<u64> = vec![0, 1, 2, 3, 4, 5, 6];
     rng.shuffle(&mut order);
-    let ncalls = rng.usize(1, 6);
+    let ncalls = rng.usize(1, 7);
     for w in order.iter().take(ncalls) {
         issue(&sim, *w, &mut ops);
         if !concurrent {
@@ -364,6 +393,14 @@ fn run(ctx: &RunCtx) -> Report {
             continue;
         }
         match sim.take_outcome(*id) {
+            Some(Outcome::Immutable(v)) if *what == 6 => {
+                report.probe("get_immutable_on_a_mutable_target_done", 1);
+                if let Some(v) = &v {
+                    if krpc::immutable_target(v) != imm2_target {
+                        report.violate("forged-immutable", "immutable-wrong-hash", format!("get_immutable({}) returned {} bytes whose BEP44 hash is {} (the value of a mutable item stored under that target)", hex8(&imm2_target), v.len(), hex8(&krpc::immutable_target(v))));
+                    }
+                }
+            }
             Some(Outcome::Immutable(v)) => {
                 report.probe("get_immutable_done", 1);
                 if let Some(v) = &v {
